@@ -32,3 +32,30 @@ def run(ctx, rep):
         rep.oblige('FT1.const', name, ok=c['val'] == val)
         if c['val'] != val:
             rep.violation('FT1', vkey('FT1', name, 'const', ''), name, '%s is %d, specification says %d' % (name, c['val'], val))
+    # FT2: the width a volume is mounted with is the width of the geometry's own cluster count: the operand of
+    # FatType::from_clusters in FileSystem::new is the unmodified result of BiosParameterBlock::total_clusters
+    from model import op_place
+    from rules.c15 import _single_defs, _name_root
+    NEW = 'fatfs::fs::FileSystem::new'
+    fnew = facts.fns.get(NEW)
+    if fnew is None:
+        rep.machinery('ANCHOR-MISSING ' + NEW)
+        return
+    defs = _single_defs(fnew)
+    sites = [(b, t) for b, t in fnew.calls() if (t.get('callee') or '') == 'fatfs::fs::FatType::from_clusters']
+    n = 0
+    for b, t in sites:
+        r = _name_root(facts, fnew, defs, t['args'][0], {})
+        src = defs.get(r[1]) if r and r[0] == 'local' else None
+        ok = src is not None and src[0] == 'call' and (src[1].get('callee') or '').endswith('BiosParameterBlock::total_clusters')
+        n += 1
+        rep.oblige('FT2', '%s|bb%d' % (NEW, b), ok=ok, nontrivial=True, sample={'fn': NEW, 'at': fnew.loc(t['span'])})
+        if not ok:
+            rep.violation('FT2', vkey('FT2', NEW, 'width-operand', ''), fnew.loc(t['span']),
+                          'the FAT width a volume is mounted with is not computed from the cluster count of its geometry '
+                          '(BiosParameterBlock::total_clusters) but from a derived value (`%s`): a volume whose count is adjusted '
+                          'across 4085 / 65525 is read with the wrong entry width' % t['span']['snip'][:70])
+    if not sites:
+        # the width may be taken from a helper of the BPB; then that helper is the site
+        rep.note('FT2: FileSystem::new does not call FatType::from_clusters itself') if hasattr(rep, 'note') else None
+    rep.counts['FT2.sites'] = n
